@@ -174,6 +174,18 @@ def t_subdomains_tri(c):
     return [w * ds(1) + k * w * ds(2) + f * w * dx((1, 2)) + w * dx + 2 * w * dx(3)]
 
 
+def t_two_const_tri(c):
+    """Two scalar constants multiplied together, a vector constant and a coefficient."""
+    cell = "triangle"
+    m = c.mesh(cell)
+    V = c.space(m, _el("Lagrange", cell, 1))
+    u, v = ufl.TrialFunction(V), ufl.TestFunction(V)
+    k1, k2 = c.const(m), c.const(m)
+    b = c.const(m, shape=(2,))
+    f = c.coef(V)
+    return [k1 * k2 * inner(grad(u), grad(v)) * dx + k2 * f * inner(u, v) * dx, k1 * inner(b, grad(v)) * dx]
+
+
 def t_math_tri(c):
     cell = "triangle"
     m = c.mesh(cell)
@@ -294,6 +306,7 @@ FORM_TEMPLATES = {
     "quad_q2": t_quad_q2,
     "subdomains_tri": t_subdomains_tri,
     "math_tri": t_math_tri,
+    "two_const_tri": t_two_const_tri,
     "hdiv_hcurl_tri": t_hdiv_hcurl_tri,
     "manifold_tri": t_manifold_tri,
     "p2_geometry_tri": t_p2_geometry_tri,
